@@ -456,14 +456,48 @@ func (x *ctx) mixedLists(rng *rand.Rand) {
 		}
 		pk, pp = append(pk, kv), append(pp, pt)
 	}
-	for _, split := range [][2]int{{3, 5}, {90, 101}, {100, 100}, {1, 199}, {120, 80}, {260, 20}, {300, 250}} {
+	// the scalars of one call share a SHAPE (an implementation may look at all of them before choosing how many digit
+	// columns to process): full-size, all below 2^128 with the top bit of that range set in some, all below 2^127,
+	// 2^64, all multiples of 2^128, all equal; the term counts reach over every window switch (190, 500, 800)
+	shapeNames := []string{"catalogue", "<2^128", "<2^127", "<2^64", "multiples of 2^128", "all equal", "<2^129", "<2^136"}
+	for si, split := range [][2]int{{3, 5}, {90, 101}, {100, 100}, {1, 199}, {120, 80}, {260, 20}, {300, 250}, {0, 800}, {400, 405}, {799, 2}, {0, 520}} {
+		shape := (si + len(x.c.Stream)) % len(shapeNames)
+		if split[0]+split[1] >= 500 {
+			shape = 1 + (si+len(x.c.Stream))%2*5 // the two shapes around 2^128 for the widest window
+		}
+		same := new(big.Int).Mod(gen.RandScalar(rng, cat), ref.L)
+		shaped := func() *big.Int {
+			v := new(big.Int).Mod(gen.RandScalar(rng, cat), ref.L)
+			r128 := new(big.Int).SetBytes(mon.Bytes(rng, 17))
+			switch shape {
+			case 1:
+				v = r128.Rsh(r128, 8)
+				if rng.IntN(3) == 0 {
+					v.SetBit(v, 127, 1)
+				}
+			case 2:
+				v = r128.Rsh(r128, 9)
+			case 3:
+				v = r128.Rsh(r128, 72)
+			case 4:
+				v = new(big.Int).Mod(new(big.Int).Lsh(r128.Rsh(r128, 20), 128), ref.L)
+				v.Rsh(v, 128).Lsh(v, 128)
+			case 5:
+				v = same
+			case 6:
+				v = r128.Rsh(r128, 7)
+			case 7:
+				v = r128
+			}
+			return v
+		}
 		var ss, ds []*scalar.Scalar
 		var sp []*curve.ExpandedRistrettoPoint
 		var dp []*curve.RistrettoPoint
 		total := new(big.Int)
 		for i := 0; i < split[0]+split[1]; i++ {
 			kv, pt := pk[i%12], pp[i%12]
-			sv := new(big.Int).Mod(gen.RandScalar(rng, cat), ref.L)
+			sv := shaped()
 			sl, _ := scalar.NewFromCanonicalBytes(ref.LE32(sv))
 			total.Add(total, new(big.Int).Mul(kv, sv))
 			if i < split[0] {
@@ -486,8 +520,9 @@ func (x *ctx) mixedLists(rng *rand.Rand) {
 		})
 		r.EvalN(2)
 		r.Hist(fmt.Sprintf("ExpandedMultiscalarMulVartime/static=%d/dynamic=%d", split[0], split[1]))
+		r.Hist("multiscalar-scalar-shape/" + shapeNames[shape])
 		if pan || !bytes.Equal(renc(got), wantM) || !bytes.Equal(renc(got2), wantM) {
-			r.Violate("ristretto/ExpandedMultiscalarMulVartime/mixed-lists", fmt.Sprintf("static=%d dynamic=%d: panic=%v %s expanded %x plain %x want %x", split[0], split[1], pan, msg, renc(got), renc(got2), wantM), x.c)
+			r.Violate("ristretto/ExpandedMultiscalarMulVartime/mixed-lists", fmt.Sprintf("static=%d dynamic=%d scalars %s: panic=%v %s expanded %x plain %x want %x", split[0], split[1], shapeNames[shape], pan, msg, renc(got), renc(got2), wantM), x.c)
 		}
 	}
 }
